@@ -105,6 +105,49 @@ func runC15(c *core.Ctx) {
 			}
 			return true, ""
 		}
+		// the unconditional padding: s := strconv.FormatUint(uint64(num), 10); return strings.Repeat("0", 10-len(s)) + s
+		// (a 32-bit value has at most ten digits, so the count is never negative)
+		if cat, isCat := text.(*ssa.BinOp); isCat && cat.Op == token.ADD {
+			isPkgCall := func(v ssa.Value, pkg, name string) *ssa.Call {
+				call, ok := v.(*ssa.Call)
+				if !ok || call.Call.StaticCallee() == nil || call.Call.StaticCallee().Pkg == nil || call.Call.StaticCallee().Pkg.Pkg.Path() != pkg || call.Call.StaticCallee().Name() != name {
+					return nil
+				}
+				return call
+			}
+			rc, rep := isPkgCall(cat.Y, "strconv", "FormatUint"), isPkgCall(cat.X, "strings", "Repeat")
+			if rc == nil || rep == nil {
+				return false, "timestamp text is " + role(plain, text)
+			}
+			if b, isK := constInt(rc.Call.Args[1]); !isK || b != 10 {
+				return false, "the number is not rendered in base 10"
+			}
+			arg := strip(rc.Call.Args[0])
+			if bt, isB := arg.Type().Underlying().(*types.Basic); !isB || (bt.Kind() != types.Uint32 && bt.Kind() != types.Uint16 && bt.Kind() != types.Uint8) {
+				return false, "the formatted value is not a 32-bit unsigned quantity (may print more than ten digits)"
+			}
+			if arg != num {
+				return false, "the number formatted (" + role(plain, arg) + ") is not the wire value (" + role(plain, num) + ")"
+			}
+			if z, isK := rep.Call.Args[0].(*ssa.Const); !isK || constantString(z) != "0" {
+				return false, "the padding character is not '0'"
+			}
+			sub, ok := rep.Call.Args[1].(*ssa.BinOp)
+			if !ok || sub.Op != token.SUB {
+				return false, "the padding length is not 10-len(s)"
+			}
+			lc, isL := sub.Y.(*ssa.Call)
+			if !isL || len(lc.Call.Args) != 1 || lc.Call.Args[0] != ssa.Value(rc) {
+				return false, "the padding length is not 10-len(s)"
+			}
+			if bi, isBi := lc.Call.Value.(*ssa.Builtin); !isBi || bi.Name() != "len" {
+				return false, "the padding length is not 10-len(s)"
+			}
+			if k, isK := constInt(sub.X); !isK || k != 10 {
+				return false, "the padding length is not 10-len(s)"
+			}
+			return true, ""
+		}
 		// the hand-written rendering: s := strconv.FormatUint(uint64(num), 10); if len(s) < 10 { s = strings.Repeat("0", 10-len(s)) + s }
 		if ph, isPhi := text.(*ssa.Phi); isPhi && len(ph.Edges) == 2 {
 			isLenOf := func(v, of ssa.Value) bool {
